@@ -130,6 +130,15 @@ func (r *runner) hook(cl *fakecluster.Cluster, req *fakecluster.Request) *fakecl
 		}
 		return &fakecluster.Action{ErrorCode: a.f.Code, Tag: "c19-code"}
 	case 9: // OffsetFetch: error on exactly one partition of the response
+		if a.f.Kind == "group-code" {
+			// the coordinator refuses the whole request: from v2 on the code travels in the top-level field
+			return &fakecluster.Action{Tag: "c19-group-code", Mutate: func(body map[string]any) {
+				body["ErrorCode"] = int64(a.f.Code)
+				r.mu.Lock()
+				a.fired++
+				r.mu.Unlock()
+			}}
+		}
 		return &fakecluster.Action{Tag: "c19-code", Mutate: func(body map[string]any) {
 			for _, tv := range asArr(body["Topics"]) {
 				tm := asMap(tv)
